@@ -8,6 +8,8 @@ the states at the end of an arbitrary sequence of enabled atomic steps of the lo
 the controller and the environment (`Proofs.C12.run_of_reach / reach_of_run`).
 -/
 import CamVerif.Proofs.C12
+import CamVerif.Proofs.C12Order
+import CamVerif.Proofs.C12Stop
 namespace CamVerif.C12
 open CamVerif CamVerif.StreamLoop
 
@@ -56,5 +58,196 @@ example : ∃ s, Reach exP exA exScript s ∧ s.pc = .parse ∧ s.plen = 7 ∧ s
   rw [hs] at this
   simp only [Option.map_some, Option.some.injEq, Prod.mk.injEq] at this
   exact this
+
+
+/-! ## All invariants hold in every reachable state -/
+
+/-- In-flight transfers exist only while the loop owns their target buffer. -/
+private def PendOwn (s : State) : Prop := s.pending ≠ [] → s.cur.isSome = true ∨ s.reuse.isSome = true
+
+private theorem PendOwn_step {P : Params} {A : Assembler} {script : List Item} {s s' : State} {a : Step}
+    (hp : PoolOK P s) (h : PendOwn s) (hs : step P A script s a = some s') : PendOwn s' := by
+  cases a <;> simp only [step] at hs <;> step_split <;>
+    simp_all [PendOwn, PoolOK, applyData_cur_isSome]
+
+private structure Inv (P : Params) (s : State) : Prop where
+  pool : PoolOK P s
+  sizes : Sizes P s
+  reuse : ReuseOK s
+  own : Own s
+  order : Order P s
+  ctl : CtlOK s
+  pend : s.pending.length ≤ P.T
+  pown : PendOwn s
+
+private theorem reach_inv {P : Params} {A : Assembler} {script : List Item} {s : State}
+    (h : Reach P A script s) : Inv P s := by
+  induction h with
+  | init =>
+    exact ⟨PoolOK_init P, Sizes_init P, ReuseOK_init P, Own_init P, Order_init P, CtlOK_init P,
+      by simp [init], by simp [PendOwn, init]⟩
+  | step _ hs ih =>
+    exact ⟨PoolOK_step ih.pool hs, Sizes_step ih.pool ih.sizes hs, ReuseOK_step ih.reuse hs,
+      Own_step ih.pool ih.reuse ih.own hs, Order_step ih.pool ih.order hs, CtlOK_step ih.ctl hs,
+      pend_le_step ih.pool ih.pend hs, PendOwn_step ih.pool ih.pown hs⟩
+
+/-! ## 2. in_order_no_dup -/
+
+/-- **in_order_no_dup**: in every reachable state the `Ok` payloads the receiver got so far
+(`recvLog`) are a prefix of the payloads enqueued (`sentLog`, FIFO: nothing duplicated, nothing
+reordered); every enqueued payload was assembled from its own segment `[start, start+T)` of the
+device's packet sequence, these segments are pairwise disjoint and increasing (so a frame is
+delivered at most once and in the order sent) and lie inside what the device sent so far. -/
+theorem in_order_no_dup (P : Params) (A : Assembler) (script : List Item) (s : State)
+    (h : Reach P A script s) :
+    s.recvLog <+: s.sentLog ∧
+    (s.sentLog.map (·.start)).Pairwise (fun a b => a + P.T ≤ b) ∧
+    (s.recvLog.map (·.start)).Pairwise (· < ·) ∧
+    (∀ m ∈ s.sentLog, m.start + P.T ≤ s.consumed) := by
+  have hi := (reach_inv h).order
+  have hT := T_ge_two P
+  have hpre : s.recvLog <+: s.sentLog := ⟨_, hi.split⟩
+  refine ⟨hpre, hi.incr, ?_, ?_⟩
+  · have hsub : (s.recvLog.map (·.start)).Sublist (s.sentLog.map (·.start)) :=
+      (hpre.sublist).map _
+    exact (hi.incr.sublist hsub).imp (by intro a b hab; omega)
+  · intro m hm
+    rcases hi.bound m hm with hb | ⟨he, hst⟩
+    · have := hi.le; omega
+    · have := hi.enqc he; omega
+
+/-! ## 5. buffers_unique_owner -/
+
+/-- **buffers_unique_owner**: every allocated buffer identity has exactly one owner among
+{loop (current buffer = target of all in-flight transfers, reuse slot, payload in hand), payload
+channel, receiver, send-back channel, freed}; identities not yet allocated have none; in-flight
+transfers exist only while the loop owns their buffer; and the loop's current buffer — the only
+buffer a completing transfer writes (`applyData`) — is not held by the receiver, not in a channel
+and not freed. -/
+theorem buffers_unique_owner (P : Params) (A : Assembler) (script : List Item) (s : State)
+    (h : Reach P A script s) :
+    (∀ i, i < s.nextBuf → (owned s).count i = 1) ∧
+    (∀ i, s.nextBuf ≤ i → i ∉ owned s) ∧
+    (s.pending ≠ [] → s.cur.isSome = true ∨ s.reuse.isSome = true) ∧
+    (∀ b, s.cur = some b →
+      b.id ∉ rxOwned s ∧ b.id ∉ chanOwned s ∧ b.id ∉ backOwned s ∧ b.id ∉ s.freed) := by
+  have hi := reach_inv h
+  refine ⟨?_, ?_, hi.pown, ?_⟩
+  · intro i hlt; have := hi.own i; rw [if_pos hlt] at this; exact this
+  · intro i hge; have := hi.own i; rw [if_neg (by omega)] at this
+    exact List.count_eq_zero.mp this
+  · intro b hb
+    have hc := hi.own b.id
+    have hle : (owned s).count b.id ≤ 1 := by rw [hc]; split <;> omega
+    simp only [owned, loopOwned, hb, optId_some, List.count_append, List.count_cons, beq_self_eq_true,
+      if_true, List.count_nil] at hle
+    refine ⟨?_, ?_, ?_, ?_⟩ <;> (intro hmem; have := List.count_pos_iff.mpr hmem; omega)
+
+/-- A payload the receiver holds is a value no loop step touches: loop steps leave `held` as it is
+(and, by `buffers_unique_owner`, write only to a buffer with a different identity). -/
+theorem held_untouched_by_loop (P : Params) (A : Assembler) (script : List Item) (s s' : State)
+    (a : Step) (ha : a.isLoop = true) (hs : step P A script s a = some s') : s'.held = s.held := by
+  cases a <;> simp [Step.isLoop] at ha <;> simp only [step] at hs <;> step_split <;> simp
+
+/-! ## 4. loop_never_blocks -/
+
+/-- **loop_never_blocks**: in every reachable state in which the loop thread has not returned
+(or died), the loop has an enabled step of its own, and it has one WHATEVER the receiver-controlled
+part of the state is (payload channel content, send-back channel, held payloads, receiver
+alive or dropped): a full or closed channel, an absent receiver or a malformed frame never blocks it.
+While polling, the step `pollPending` (the poll call returns `Timeout` after at most the programmed
+per-transfer timeout) is always enabled: this is the one fairness/timing assumption — the
+environment delivers either a completion or the timeout. -/
+theorem loop_never_blocks (P : Params) (A : Assembler) (script : List Item) (s : State)
+    (h : Reach P A script s) (h1 : s.pc ≠ .exited) (h2 : s.pc ≠ .dead)
+    (chan : List Msg) (back held : List OkMsg) (rxAlive : Bool) :
+    (∃ a, a.isLoop = true ∧
+      (step P A script { s with chan := chan, back := back, held := held, rxAlive := rxAlive } a).isSome = true) ∧
+    (s.pc = .poll → (step P A script s .pollPending).isSome = true) := by
+  have hp := (reach_inv h).pool
+  refine ⟨loop_step_exists A script (PoolOK_congr rfl rfl rfl rfl rfl rfl hp) h1 h2, ?_⟩
+  intro hpc
+  simp only [PoolOK, hpc] at hp
+  have hne : s.pending ≠ [] := by
+    rcases hp.2 with ⟨_, _, h⟩ | ⟨_, pre, suf, _, h, _⟩
+    · intro h0; rw [h0, layout_eq] at h; simp [slotsOf] at h
+    · intro h0; rw [h0] at h; simp [slotsOf] at h
+  cases hpd : s.pending with
+  | nil => exact absurd hpd hne
+  | cons x r => simp [step, stepPollPending, hpc, hpd]
+
+/-! ## 7. stop_bounded -/
+
+private theorem run_phi {P : Params} {A : Assembler} {script : List Item} :
+    ∀ (as : List Step) (s s' : State), PoolOK P s → CtlOK s → s.pending.length ≤ P.T →
+      (s.ctl ≠ .running ∧ s.ctl ≠ .calling) → run P A script s as = some s' →
+      countLoop as + phi P s' ≤ phi P s ∧ PoolOK P s' ∧ CtlOK s' ∧ (s'.ctl ≠ .running ∧ s'.ctl ≠ .calling) := by
+  intro as
+  induction as with
+  | nil => intro s s' hp hc hl hctl hr; simp only [run] at hr; injection hr with hr; subst hr
+           exact ⟨by simp [countLoop], hp, hc, hctl⟩
+  | cons a as ih =>
+    intro s s' hp hc hl hctl hr
+    simp only [run] at hr
+    split at hr
+    · next s1 hs1 =>
+      obtain ⟨h1, h2, h3, h4⟩ := ih s1 s' (PoolOK_step hp hs1) (CtlOK_step hc hs1)
+        (pend_le_step hp hl hs1) (ctl_stays hctl hs1) hr
+      refine ⟨?_, h2, h3, h4⟩
+      cases hl' : a.isLoop with
+      | true =>
+        have := phi_loop_step hp hc hctl hl' hs1
+        simp only [countLoop, List.filter_cons, hl', if_true, List.length_cons] at h1 ⊢
+        omega
+      | false =>
+        have := (phi_other_step (P := P) hl' hs1).1
+        simp only [countLoop, List.filter_cons, hl'] at h1 ⊢
+        simp only [Bool.false_eq_true, if_false] at ⊢
+        omega
+    · cases hr
+
+/-- **stop_bounded**: take any reachable state in which the controller is parked in the rendezvous
+`send` of `stop_streaming_loop` (`ctl = stopping`) and any continuation schedule `as`.  Then
+* the loop performs at most `stopBound P = 3·T + 6` steps of its own in `as` (`T` = transfers per
+  frame; the bound is the variant `phi`, which every loop step decreases), and since by
+  `loop_never_blocks` it always has an enabled step while it is alive, it is gone after at most
+  that many of its own steps;
+* the running flag stays cleared (`ctl ≠ running`);
+* when the loop has returned the rendezvous has completed: `stop` returns `Ok` (`ctl = stopOk`);
+  if the loop died instead, `stop` returns an error (the step `stopDisc` is enabled / was taken);
+* once the loop is leaving or gone no transfer is in flight and no step enqueues anything. -/
+theorem stop_bounded (P : Params) (A : Assembler) (script : List Item) (s s' : State)
+    (h : Reach P A script s) (hstop : s.ctl = .stopping) (as : List Step)
+    (hrun : run P A script s as = some s') :
+    countLoop as + phi P s' ≤ phi P s ∧ phi P s ≤ stopBound P ∧
+    s'.ctl ≠ .running ∧
+    (s'.pc = .exited → s'.ctl = .stopOk) ∧
+    (s'.pc = .dead → s'.ctl = .stopErr ∨ (step P A script s' .stopDisc).isSome = true) ∧
+    ((s'.pc = .exiting ∨ s'.pc = .exited ∨ s'.pc = .dead) → s'.pending = [] ∧
+      ∀ a s'', step P A script s' a = some s'' → s''.sentLog = s'.sentLog) := by
+  have hi := reach_inv h
+  have hctl : s.ctl ≠ .running ∧ s.ctl ≠ .calling := by rw [hstop]; exact ⟨by decide, by decide⟩
+  obtain ⟨h1, h2, h3, h4⟩ := run_phi as s s' hi.pool hi.ctl hi.pend hctl hrun
+  refine ⟨h1, phi_le_bound hi.pool hi.pend, h4.1, ?_, ?_, ?_⟩
+  · intro hpc; exact h3.exit_ok (Or.inr hpc)
+  · intro hpc
+    cases hc : s'.ctl with
+    | running => exact absurd hc h4.1
+    | calling => exact absurd hc h4.2
+    | stopping => right; simp [step, stepStopDisc, hc, hpc]
+    | stopOk => rcases h3.ok_exit hc with h | h <;> rw [hpc] at h <;> cases h
+    | stopErr => left; rfl
+  · intro hpc
+    refine ⟨?_, fun a s'' hs => (no_enqueue_after_exit hpc hs).1⟩
+    rcases hpc with hpc | hpc | hpc <;> (simp only [PoolOK, hpc] at h2; exact h2.1)
+
+/-- `B(params)` is linear in the number of transfers per frame. -/
+theorem stopBound_linear (P : Params) :
+    stopBound P = 3 * (P.payloadSlots.length + 2) + 6 ∧
+    P.payloadSlots.length ≤ P.payloadCount + 2 := by
+  refine ⟨by simp [stopBound, T_eq], ?_⟩
+  unfold Params.payloadSlots
+  simp only [List.length_append, List.length_map, List.length_range]
+  split <;> split <;> simp
 
 end CamVerif.C12
